@@ -133,6 +133,23 @@ thread_local! {
     pub static LAST_PANIC: std::cell::RefCell<String> = const { std::cell::RefCell::new(String::new()) };
 }
 
+/// Violation texts stay readable (and replay files small) when an input is megabytes long.
+fn clip(m: String) -> String {
+    const MAX: usize = 1600;
+    if m.len() <= MAX {
+        return m;
+    }
+    let mut cut = 1200;
+    while !m.is_char_boundary(cut) {
+        cut -= 1;
+    }
+    let mut tail = m.len() - 300;
+    while !m.is_char_boundary(tail) {
+        tail += 1;
+    }
+    format!("{} ...[{} bytes left out]... {}", &m[..cut], tail - cut, &m[tail..])
+}
+
 /// Message of the most recent panic on this thread (harness diagnostics).
 pub fn last_panic() -> String {
     LAST_PANIC.with(|p| p.borrow().clone())
@@ -454,13 +471,13 @@ impl Ctx {
         let e = self.violations.entry(key.to_string()).or_insert(VioAgg { count: 0, examples: vec![] });
         e.count += 1;
         if e.examples.len() < 3 {
-            let m = msg();
+            let m = clip(msg());
             if self.opts.verbose {
                 println!("  VIOLATION {} : {}", key, m);
             }
             e.examples.push((leaf, m));
         } else if self.opts.verbose {
-            println!("  VIOLATION {} : {}", key, msg());
+            println!("  VIOLATION {} : {}", key, clip(msg()));
         }
     }
     /// O5 non-interference: run `f` once per fill pattern; the transcripts
